@@ -350,7 +350,22 @@ func (x *Exec) loopModifiedRegions(fr *Frame, L *Loop) (map[string]Sort, bool) {
 						id, isId = st.X.(*ast.Ident)
 					}
 					found := false
-					if isStar && isId {
+					if strings.HasSuffix(strings.TrimSpace(a.Text), "[*]") {
+						// s[*]: elements of the backing array of slice s
+						if t := staticTypeOf(fn, a.Expr); t != nil {
+							if sl, ok := t.Underlying().(*types.Slice); ok {
+								addSliceElem(sl)
+								found = true
+							}
+						}
+					} else if c := staticContainer(fn, a.Expr); c != nil && !(isStar && isId) {
+						// p.f.g / *p.f: the object that holds the assigned field
+						addElem(c)
+						r, s := x.elemRegion(c)
+						regs[r] = s
+						found = true
+					}
+					if !found && isStar && isId {
 						for _, prm := range fn.Params {
 							if prm.Name() == id.(*ast.Ident).Name {
 								if pt, ok := prm.Type().Underlying().(*types.Pointer); ok {
@@ -396,6 +411,67 @@ func (x *Exec) loopModifiedRegions(fr *Frame, L *Loop) (map[string]Sort, bool) {
 		}
 	}
 	return regs, all
+}
+
+// staticTypeOf: Go type of a contract location expression built from parameters, field selections and derefs.
+func staticTypeOf(fn *ssa.Function, e ast.Expr) types.Type {
+	switch e := e.(type) {
+	case *ast.ParenExpr:
+		return staticTypeOf(fn, e.X)
+	case *ast.Ident:
+		for _, prm := range fn.Params {
+			if prm.Name() == e.Name {
+				return prm.Type()
+			}
+		}
+	case *ast.StarExpr:
+		if t := staticTypeOf(fn, e.X); t != nil {
+			if pt, ok := t.Underlying().(*types.Pointer); ok {
+				return pt.Elem()
+			}
+		}
+	case *ast.SelectorExpr:
+		t := staticTypeOf(fn, e.X)
+		if t == nil {
+			return nil
+		}
+		if pt, ok := t.Underlying().(*types.Pointer); ok {
+			t = pt.Elem()
+		}
+		if st, ok := t.Underlying().(*types.Struct); ok {
+			for i := 0; i < st.NumFields(); i++ {
+				if st.Field(i).Name() == e.Sel.Name {
+					return st.Field(i).Type()
+				}
+			}
+		}
+	}
+	return nil
+}
+
+// staticContainer: type of the heap object that holds the location e (`*p` -> pointee of p; `p.f` -> pointee of p;
+// `p.f.g` with f a pointer -> pointee of f; with f a nested struct value -> the object holding p.f).
+func staticContainer(fn *ssa.Function, e ast.Expr) types.Type {
+	switch e := e.(type) {
+	case *ast.ParenExpr:
+		return staticContainer(fn, e.X)
+	case *ast.StarExpr:
+		if t := staticTypeOf(fn, e.X); t != nil {
+			if pt, ok := t.Underlying().(*types.Pointer); ok {
+				return pt.Elem()
+			}
+		}
+	case *ast.SelectorExpr:
+		t := staticTypeOf(fn, e.X)
+		if t == nil {
+			return nil
+		}
+		if pt, ok := t.Underlying().(*types.Pointer); ok {
+			return pt.Elem()
+		}
+		return staticContainer(fn, e.X)
+	}
+	return nil
 }
 
 // execLoopInvariant: classic invariant cut.
@@ -493,6 +569,10 @@ func (x *Exec) execLoopInvariant(fr *Frame, L *Loop, in []Edge, lc *LoopContract
 			x.regionSort[r] = srt
 			stH.Heap[r] = x.C.Fresh("lh_"+r, srt)
 			x.oldWrites++
+			if x.dirty == nil {
+				x.dirty = map[string]bool{}
+			}
+			x.dirty[r] = true
 		}
 		for _, k := range keep {
 			if v, err := x.Load(stH, k.p); err == nil {
@@ -503,6 +583,7 @@ func (x *Exec) execLoopInvariant(fr *Frame, L *Loop, in []Edge, lc *LoopContract
 		}
 		nb := x.C.Fresh("brk", SRef)
 		x.C.Assume(bvCmp("bvuge", nb, stH.Brk), "allocator monotone across loop iterations")
+		x.C.NoteRefGE(nb.S, stH.Brk.S)
 		stH.Brk = nb
 	}
 	for i, phi := range phis {
